@@ -568,6 +568,12 @@ func StreamSetForInterfaceFromArray(list []interface{}) *StreamSetForInterfaceDe
 func StreamSetForInterfaceFromMap(theMap map[interface{}]*StreamForInterfaceDef) *StreamSetForInterfaceDef {
 	resultMap := make(map[interface{}]interface{}, len(theMap))
 	for k, v := range theMap {
+		if v == nil {
+			// keep "no stream" an untyped nil: a typed nil pointer inside the interface{}
+			// value passes the v != nil tests of the set operations and is then dereferenced
+			resultMap[k] = nil
+			continue
+		}
 		resultMap[k] = v
 	}
 	result := StreamSetForInterfaceDef{
@@ -685,9 +691,10 @@ func (streamSetSelf *StreamSetForInterfaceDef) IsSubsetByKey(input *StreamSetFor
 
 // IsSupersetByKey TODO NOTE !!Duplicated!! returns true or false by checking if set1 is a superset of set2
 func (streamSetSelf *StreamSetForInterfaceDef) IsSupersetByKey(input *StreamSetForInterfaceDef) bool {
-	if input == nil || input.Size() == 0 {
+	if input == nil {
 		return true
 	}
+	// (an empty input is answered by the Set implementation, as StreamSetDef does)
 
 	return streamSetSelf.SetForInterfaceDef.IsSupersetByKey(&input.SetForInterfaceDef)
 }
@@ -695,7 +702,8 @@ func (streamSetSelf *StreamSetForInterfaceDef) IsSupersetByKey(input *StreamSetF
 // Minus TODO NOTE !!Duplicated!! Get all of this StreamSetForInterface but not in the given StreamSetForInterface
 func (streamSetSelf *StreamSetForInterfaceDef) Minus(input *StreamSetForInterfaceDef) *StreamSetForInterfaceDef {
 	if input == nil || input.Size() == 0 {
-		return NewStreamSetForInterface()
+		// nothing to take away (as StreamSetDef / MapSetDef.Minus answer)
+		return streamSetSelf
 	}
 
 	result := &StreamSetForInterfaceDef{SetForInterfaceDef: *streamSetSelf.SetForInterfaceDef.Minus(&input.SetForInterfaceDef)}
